@@ -20,6 +20,9 @@
   `distinct_ids_counterexample` / `C16_dict_counterexample`.
 -/
 import Pymodbus.Lemmas.AsyncClient
+import Pymodbus.Lemmas.AsyncNet
+import Pymodbus.Generated.Tables
+import Pymodbus.Props.C06
 namespace Pymodbus.Props.C16
 open Pymodbus Pymodbus.AsyncClient
 
@@ -216,7 +219,7 @@ theorem lost_fails_all_pending (v : Variant) (ops : List Op) :
 /-- **after_loss_every_execute_fails**, on any state whose connection flag is down: `execute` (with everything
     the application's errbacks re-issue) registers nothing, and every request it writes fails with "not
     connected". -/
-theorem after_loss_every_execute_fails (v : Variant) (s : State) (r : Req) (h : s.connected = false) :
+theorem after_loss_every_execute_fails (v : Variant) (s : State) (r : AsyncClient.Req) (h : s.connected = false) :
     (execute v s r).1.pending = s.pending ∧ (execute v s r).1.connected = false ∧
     s.nextId < (execute v s r).1.nextId ∧
     (∀ i, s.nextId ≤ i → i < (execute v s r).1.nextId → Event.errback i .notConnected ∈ (execute v s r).2) ∧
@@ -469,7 +472,7 @@ theorem wrap_general (m : Nat) (hm : m + 1 = 65536) :
     exact ⟨by rw [show (run .dict init (wrapOpsN m)).2 = trace .dict (wrapOpsN m) from rfl, hfired]; simp, h.1⟩
   · intro tag
     rw [hrun]
-    simp [step, reply, AsyncClient.get, dictGet, fireOk, Req.okK]
+    simp [step, reply, AsyncClient.get, AsyncClient.dictGet, fireOk, AsyncClient.Req.okK]
 
 /-- the history of the counterexample: connect, then 65537 requests, none answered -/
 def wrapOps : List Op := wrapOpsN 65535
@@ -510,10 +513,182 @@ theorem wrap_full_fails (m : Nat) (hm : m + 1 = 65536) :
 theorem C16_dict_counterexample : ¬ C16_dict_full :=
   fun hfull => wrap_full_fails 65535 rfl (hfull _)
 
+
+/-! ### several protocol objects in one process: per-connection state is private -/
+
+/-- **connection_private.**  An operation on connection `i` (including the arrival of any bytes) leaves the whole
+    state of every other connection `j` – protocol flag, transaction table, transaction id counter AND framer
+    buffer – exactly as it was, and causes no event on it; creating a new protocol object changes no existing
+    one and the new one starts fresh (empty table, empty buffer). -/
+theorem connection_private (v : Variant) (n : Net) (i j : Nat) (op : COp) (h : j ≠ i) :
+    (nstep v n (.on i op)).1[j]? = n[j]? ∧ eventsOf j (nstep v n (.on i op)).2 = [] :=
+  nstep_other n i j op h
+
+theorem new_connection_is_fresh (v : Variant) (n : Net) :
+    (∀ j, j < n.length → (nstep v n .open).1[j]? = n[j]?) ∧ (nstep v n .open).1[n.length]? = some Conn.init :=
+  ⟨(nstep_open n).1, (nstep_open n).2.1⟩
+
+/-- **connection_is_single_history.**  Take any multi-connection history: `pre` (anything, on any objects), then a
+    protocol object is created, then `post` (operations on it interleaved arbitrarily with operations on – and
+    creations of – other objects).  Its final state and its event trace are those of the single-connection
+    history `crun` of the operations addressed to it, started from a fresh object. -/
+theorem connection_is_single_history (v : Variant) (pre post : List NOp) :
+    let i := (nrun v [] pre).1.length
+    let r := nrun v [] (pre ++ .open :: post)
+    r.1[i]? = some (crun v Conn.init (opsOf i post)).1 ∧
+    eventsOf i r.2 = (crun v Conn.init (opsOf i post)).2 :=
+  nrun_born pre post
+
+/-- Chunked arrival is a sequence of whole-reply arrivals: a single-connection history with bytes arriving in any
+    chunking has the protocol state and (apart from exceptions raised by the framer itself) the event trace of the
+    history `expand` in which every chunk is replaced by the replies its framer delivers. -/
+theorem chunks_are_replies (v : Variant) (cops : List COp) :
+    (crun v Conn.init cops).1.proto = (run v init (expand v Conn.init cops)).1 ∧
+    noExc (crun v Conn.init cops).2 = trace v (expand v Conn.init cops) := by
+  obtain ⟨a, b⟩ := crun_expand (v := v) cops Conn.init
+  refine ⟨a, ?_⟩
+  rw [b]
+  have hne := no_exception v (expand v Conn.init cops)
+  show List.filter (fun e => !e.isExc) (trace v (expand v Conn.init cops)) = trace v (expand v Conn.init cops)
+  apply List.filter_eq_self.2
+  intro e he
+  simp [hne e he]
+
+/-- **All history theorems lift to every connection of a multi-connection history**: the events of that
+    connection (minus framer exceptions) are the trace of a single-connection history `ops'` on a fresh protocol
+    object, so `C16_always` (at most once, tid matching, FIFO order, unsolicited dropped, loss fails all pending,
+    requests while down fail, …) and, inside the no-wrap scope, `C16_dict_partial` hold for it – whatever happens
+    on the other connections. -/
+theorem multi_connection_lifts (v : Variant) (pre post : List NOp) :
+    let i := (nrun v [] pre).1.length
+    let r := nrun v [] (pre ++ .open :: post)
+    ∃ ops' : List Op,
+      noExc (eventsOf i r.2) = trace v ops' ∧
+      (∃ c, r.1[i]? = some c ∧ c.proto = (run v init ops').1) ∧
+      Spec.Always v (hist v ops') ∧
+      (v = .fifo → Spec.Holds .fifo (hist .fifo ops')) ∧
+      (Spec.NoWrapAll (hist v ops') → Spec.NeedsDistinct v (hist v ops')) := by
+  intro i r
+  obtain ⟨h1, h2⟩ := connection_is_single_history v pre post
+  obtain ⟨h3, h4⟩ := chunks_are_replies v (opsOf i post)
+  refine ⟨expand v Conn.init (opsOf i post), ?_, ⟨_, h1, h3⟩, C16_always v _, ?_, ?_⟩
+  · show noExc (eventsOf i r.2) = _
+    rw [h2, h4]
+  · intro hv; subst hv; exact C16_fifo _
+  · intro hw; exact needs_distinct_partial v _ (fun _ => hw)
+
+/-- in particular: on every connection of every multi-connection history no deferred fires twice -/
+theorem multi_fires_at_most_once (v : Variant) (pre post : List NOp) :
+    Spec.AtMostOnce (noExc (eventsOf (nrun v [] pre).1.length (nrun v [] (pre ++ .open :: post)).2)) := by
+  obtain ⟨ops', h, _⟩ := multi_connection_lifts v pre post
+  rw [h]; exact fires_at_most_once v ops'
+
+/-- the reconnect scenario: connection 0 receives 9 of the 11 bytes of its reply and is lost; a new protocol
+    object (connection 1) sends a request and receives its whole reply -/
+def reconnectOps : List NOp :=
+  [.open, .on 0 (.proto .connectionMade), .on 0 (.proto (.execute .plain)),
+   .on 0 (.data [0, 1, 0, 0, 0, 5, 1, 3, 2]), .on 0 (.proto .connectionLost),
+   .open, .on 1 (.proto .connectionMade), .on 1 (.proto (.execute .plain)),
+   .on 1 (.data [0, 1, 0, 0, 0, 5, 1, 3, 2, 0, 77])]
+
+/-- per-connection framers: the new connection's deferred fires with its own reply (register 77) -/
+theorem reconnect_private_buffers :
+    eventsOf 1 (nrun .dict [] reconnectOps).2 = [.sent 0 1, .callback 0 1 77] ∧
+    eventsOf 0 (nrun .dict [] reconnectOps).2 = [.sent 0 1, .errback 0 .lost] := by decide
+
+/-- **shared_buffer_counterexample.**  The mutant in which all protocol objects use ONE framer (a class-level
+    framer object): the 9 stale bytes of the lost connection are prepended to the new connection's reply; its
+    deferred fires with a chimera (register 1 instead of 77) and 9 bytes stay in the buffer. -/
+theorem shared_buffer_counterexample :
+    eventsOf 1 (Shared.nrun .dict ⟨[], []⟩ reconnectOps).2 = [.sent 0 1, .callback 0 1 1] ∧
+    (Shared.nrun .dict ⟨[], []⟩ reconnectOps).1.buf = [0, 0, 0, 5, 1, 3, 2, 0, 77] ∧
+    eventsOf 1 (Shared.nrun .dict ⟨[], []⟩ reconnectOps).2 ≠ eventsOf 1 (nrun .dict [] reconnectOps).2 := by decide
+
+/-- Tie to the source (regenerated from /repo on every run): two protocol objects built the way the factories
+    build them (no framer argument) have distinct framer objects, distinct transaction managers and independent
+    buffers, for every client protocol class; and `ModbusClientProtocol.__init__` does not read `self.framer`
+    (a class attribute) when it chooses the framer. -/
+theorem generated_per_instance_state :
+    Generated.asyncPerInstance.map (·.1) = ["ModbusClientProtocol", "ModbusTcpClientProtocol",
+      "ModbusSerClientProtocol", "ModbusUdpClientProtocol", "ModbusClientFactory.buildProtocol"] ∧
+    Generated.asyncPerInstance.all (fun r => r.2.1 && r.2.2.1 && r.2.2.2) = true ∧
+    Generated.asyncInitFramerReadsSelf = false := by decide
+
+/-! ### replies arriving in pieces -/
+
+/-- the framing of each variant, in the vocabulary of C06 -/
+def framingOf : Variant → C06.Framing
+  | .dict => .tcp
+  | .fifo => .rtu Framer.rtuRuleClient
+
+/-- what a delivered reply frame is for the protocol: `_handleResponse(reply)` -/
+def replyOf (f : Framer.VFrame Resp) : Op := .reply f.tid (respTag f.msg)
+
+theorem evsToOps_map (fs : List (Framer.VFrame Resp)) :
+    evsToOps (fs.map (fun f => Framer.Ev.deliver f.msg f.uid f.tid f.pid)) = fs.map replyOf := by
+  induction fs with
+  | nil => rfl
+  | cons f r ih => simp only [List.map_cons, evsToOps, replyOf, ih]
+
+/-- **chunking_independent.**  Take any stream of valid reply frames (built as the framer of the variant builds
+    them, decodable by the client decoder; any units, any transaction ids, any number of frames) and ANY division
+    of it into reads (single bytes, cuts inside headers, several frames per read, empty reads): on a connection
+    whose buffer is empty, in any protocol state, the final protocol state and the whole event trace are exactly
+    those of the replies arriving whole, one after the other, and the buffer ends empty.  No reply is dropped,
+    duplicated or altered by the chunking.  (Uses C06 for the framers; possible since `dataReceived` passes
+    `unit=0` – with the unit read off the chunk this statement is false: `unit_from_chunk_counterexample`.) -/
+theorem chunking_independent (v : Variant) (fs : List (Framer.VFrame Resp))
+    (hfs : ∀ f ∈ fs, C06.IsBuilt (framingOf v) decClient [0] false f)
+    (chunks : List Bytes) (hc : chunks.flatten = Framer.stream fs) (s : State) :
+    crun v ⟨s, []⟩ (chunks.map .data) =
+      (⟨(run v s (fs.map replyOf)).1, []⟩, (run v s (fs.map replyOf)).2) := by
+  have hstep : C06.stepOf (framingOf v) = frameStep v := by cases v <;> rfl
+  obtain ⟨h1, h2⟩ := C06.chunking_independent (framingOf v) decClient [0] false fs hfs chunks hc
+  rw [hstep] at h1 h2
+  have hdel : ∀ e ∈ (Framer.feedAll (frameStep v) decClient [0] false ([] : Bytes) chunks).1.flatten,
+      isDeliver e = true := by
+    rw [h1]; intro e he
+    simp only [List.mem_map] at he
+    obtain ⟨f, _, rfl⟩ := he; rfl
+  rw [crun_data chunks ⟨s, []⟩ hdel, h1, h2, evsToOps_map]
+
+/-- in particular: any chunking gives what a single read of the whole stream gives -/
+theorem chunking_same_as_whole (v : Variant) (fs : List (Framer.VFrame Resp))
+    (hfs : ∀ f ∈ fs, C06.IsBuilt (framingOf v) decClient [0] false f)
+    (chunks : List Bytes) (hc : chunks.flatten = Framer.stream fs) (s : State) :
+    crun v ⟨s, []⟩ (chunks.map .data) = crun v ⟨s, []⟩ [.data (Framer.stream fs)] := by
+  rw [chunking_independent v fs hfs chunks hc s]
+  have := chunking_independent v fs hfs [Framer.stream fs] (by simp) s
+  simpa using this.symm
+
+/-- the reply `00 01 00 00 00 05 01 03 02 00 4d` arriving as `[00]` + the rest is delivered, like the same bytes
+    in one read (repaired by 0a3302f) -/
+theorem split_reply_delivered :
+    (crun .dict Conn.init [.proto .connectionMade, .proto (.execute .plain),
+        .data [0], .data [1, 0, 0, 0, 5, 1, 3, 2, 0, 77]]).2 = [.sent 0 1, .callback 0 1 77] ∧
+    (crun .dict Conn.init [.proto .connectionMade, .proto (.execute .plain),
+        .data [0, 1, 0, 0, 0, 5, 1, 3, 2, 0, 77]]).2 = [.sent 0 1, .callback 0 1 77] := by decide
+
+/-- **unit_from_chunk_counterexample** (fixed finding `async-unit-from-chunk`, kept as a mutant): with the unit for
+    the framer's unit check read off the chunk (`Guess.*`, the code before 0a3302f) the same split reply is
+    discarded (guessed unit 3, frame unit 1): the deferred never fires -/
+theorem unit_from_chunk_counterexample :
+    (Guess.crun .dict Conn.init [.proto .connectionMade, .proto (.execute .plain),
+        .data [0], .data [1, 0, 0, 0, 5, 1, 3, 2, 0, 77]]).2 = [.sent 0 1] ∧
+    (Guess.crun .dict Conn.init [.proto .connectionMade, .proto (.execute .plain),
+        .data [0, 1, 0, 0, 0, 5, 1, 3, 2, 0, 77]]).2 = [.sent 0 1, .callback 0 1 77] := by decide
+
+/-- Tie to the source (regenerated from /repo on every run): `ModbusClientProtocol.dataReceived` passes the
+    literal `unit=0` to `processIncomingPacket`, as `AsyncClient.dataReceived` does. -/
+theorem generated_data_received_unit : Generated.asyncDataReceivedUnit = "const:0" := by decide
+
 /-! ### non-vacuity: the hypotheses used above are satisfiable -/
 
 example : Spec.NoWrapAll (hist .dict [.connectionMade, .execute (.onErr .plain), .execute .plain, .reply 2 7,
     .connectionLost, .execute .plain]) := by decide
+example : C06.IsBuilt (framingOf .dict) decClient [0] false
+    ⟨[0, 1, 0, 0, 0, 5, 1, 3, 2, 0, 77], [3, 2, 0, 77], 1, 1, 0, .readHolding [77]⟩ :=
+  ⟨3, [2, 0, 77], rfl, rfl, rfl, rfl⟩
 example : (init).connected = false := rfl
 example : ∀ op ∈ [Op.execute .plain, Op.reply 1 4, Op.close true, Op.connectionLost], op ≠ Op.connectionMade := by
   decide
